@@ -109,3 +109,24 @@ def R(tag, fmt='', *vals):
         return tag + ': ' + (fmt % vals)
     except Exception:
         return tag + ': ' + fmt + ' ' + repr(vals)
+
+
+_known_ids = [None]
+WITNESS = [False]     # set by the runner while it replays a known finding's witness: no carve-outs then
+
+
+def known(fid):
+    """True when known_findings.json lists finding `fid` (its region is then carved out of the
+    exhaustive conditions by the harness and re-checked by the finding's witness)."""
+    if WITNESS[0]:
+        return False
+    if _known_ids[0] is None:
+        import json
+        import os
+        p = os.path.join(os.path.dirname(os.path.dirname(os.path.abspath(__file__))), 'known_findings.json')
+        try:
+            with open(p) as f:
+                _known_ids[0] = set(x['id'] for x in json.load(f).get('findings', []))
+        except IOError:
+            _known_ids[0] = set()
+    return fid in _known_ids[0]
